@@ -79,6 +79,23 @@ def _compatible(m1, m2):
     return True
 
 
+def _family_addrs(op):
+    k = op["op"]
+    if k in ("kw", "d"):
+        out = []
+        for kk, v in op["d"].items():
+            if isinstance(v, dict):
+                out += [(kk, k2) for k2 in v]
+            else:
+                out.append((kk,))
+        return out
+    if k == "set":
+        return [tuple(op["addr"])]
+    if k == "slice":
+        return [tuple(op["pre"] + [i] + op["post"]) for i in range(len(op["vals"]))]
+    return [tuple(op["pre"] + [i] + op["post"]) for i in op["idxs"]]
+
+
 def gen_script_c17(seed, tier):
     rng = rng_for(seed, "chm")
     g = _Gen(rng)
@@ -198,6 +215,25 @@ def gen_script_c17(seed, tier):
             continue
         a = rng.choice(operands)
         ma = g.models[a]
+        if rng.random() < 0.2 and families and len(ops) + 2 <= n_ops + 1:
+            # a union whose operands overlap with *different* values: re-issue a
+            # construction that shares addresses with `a`, then unite both ways
+            fam = [f for f in families if any(tuple(k) in ma for k in _family_addrs(f))]
+            if fam:
+                op2, model2 = revalue(rng.choice(fam))
+                new(model2, op2)
+                b = names[-1]
+                left, right = (a, b) if rng.random() < 0.5 else (b, a)
+                ml, mr = g.models[left], g.models[right]
+                if _compatible(ml, mr) and not (left in has_switch and right in has_switch):
+                    model = {k: list(v) for k, v in mr.items()}
+                    for k, v in ml.items():
+                        if v[0] or k not in model:
+                            model[k] = list(v)
+                    new(model, {"op": "or", "a": left, "b": right})
+                    if left in has_switch or right in has_switch:
+                        has_switch.add(names[-1])
+                continue
         if r < 0.55 and len(operands) >= 2:
             b = rng.choice(operands)
             mb = g.models[b]
